@@ -679,7 +679,14 @@ macro_rules! impl_graph_traits {
                 // A node that does not exist has no position: leave the order alone.
                 self.graph.node_weight(n)?;
                 self.order_map.remove_node(n, &self.graph);
-                self.graph.remove_node(n)
+                let weight = self.graph.remove_node(n);
+                // `Graph` moves its last node into the freed index (`StableGraph` never
+                // does): the moved node keeps its position under its new index.
+                if self.graph.node_weight(n).is_some() {
+                    let old_index = self.graph.node_count();
+                    self.order_map.rename_node(old_index, n, &self.graph);
+                }
+                weight
             }
         }
 
